@@ -27,6 +27,12 @@ Mapping of the ADM
 opts
     "empty_page":    "nostream" (default) | "emptystream"
     "shared_images": False (default) | True
+    "image_filters": None (default: /Filter /DCTDecode, a name) | list of filter names that are applied BEFORE /DCTDecode when the
+                     stream is decoded (ISO 32000-1 7.4.1: a /Filter array lists the filters in decoding order, so the last one
+                     names the format of the image data): [] writes the one-element array [/DCTDecode]; ["FlateDecode"] writes
+                     /Filter [/FlateDecode /DCTDecode] with the JPEG file deflated; also "ASCII85Decode", "ASCIIHexDecode",
+                     "RunLengthDecode" (literal runs), in any combination / repetition, e.g. ["ASCII85Decode", "FlateDecode"]
+                     = the deflated file in an ASCII base-85 wrapper.  The image the page shows is the same JPEG file in every case
     "encrypt":       None | {"user": "", "owner": "x", "algorithm": "RC4-40" | "RC4-128", "permissions": -4}
                      standard security handler, /V 1 /R 2 (40 bit) or /V 2 /R 3 /Length 128; strings and streams are
                      RC4-encrypted with the per-object key (Algorithm 1). AES-128 / AES-256 -> NotImplementedError
@@ -228,11 +234,39 @@ def _lines(inls):
     return lines
 
 
+def _encode_stream(data: bytes, filters) -> bytes:
+    """the stream bytes that decode to `data` when `filters` are applied in list order (7.4: the first filter is undone first,
+    so the encoders run in reverse order)"""
+    import base64
+    import zlib
+    for f in reversed(list(filters)):
+        if f == "FlateDecode":
+            data = zlib.compress(data, 9)
+        elif f == "ASCII85Decode":
+            data = base64.a85encode(data) + b"~>"
+        elif f == "ASCIIHexDecode":
+            data = data.hex().upper().encode("ascii") + b">"
+        elif f == "RunLengthDecode":
+            out = bytearray()
+            for i in range(0, len(data), 128):
+                run = data[i:i + 128]
+                out.append(len(run) - 1)            # 0..127: copy the next length + 1 bytes literally
+                out += run
+            out.append(128)                         # EOD
+            data = bytes(out)
+        else:
+            raise NotImplementedError("stream filter %r cannot be written" % (f,))
+    return data
+
+
 def pdf(doc, images=None, opts=None) -> bytes:
     images = images or {}
     o = dict(opts or {})
     empty_page = o.pop("empty_page", "nostream")
     shared = bool(o.pop("shared_images", False))
+    image_filters = o.pop("image_filters", None)
+    if image_filters is not None and (isinstance(image_filters, (str, bytes)) or not all(isinstance(f, str) for f in image_filters)):
+        raise ValueError("image_filters: list of filter names expected")
     enc = o.pop("encrypt", None)
     if o:
         raise ValueError("unknown pdf opts: %s" % sorted(o))
@@ -344,8 +378,12 @@ def pdf(doc, images=None, opts=None) -> bytes:
                 shared_objs[key] = num
             xobj.append((name, num))
             cs = b"/DeviceGray" if comps == 1 else b"/DeviceRGB"
+            filt = b"/DCTDecode"
+            if image_filters is not None:
+                data = _encode_stream(data, image_filters)
+                filt = b"[" + b" ".join(b"/" + f.encode("ascii") for f in list(image_filters) + ["DCTDecode"]) + b"]"
             img_objs.append((b"<< /Type /XObject /Subtype /Image /Width %d /Height %d /ColorSpace %s /BitsPerComponent 8"
-                             b" /Filter /DCTDecode /Length %d >>" % (w, h, cs, len(data)), data))
+                             b" /Filter %s /Length %d >>" % (w, h, cs, filt, len(data)), data))
         res = b"/Font << /F1 3 0 R >>"
         if xobj:
             res += b" /XObject << " + b" ".join(b"/%s %d 0 R" % (nm.encode("ascii"), num) for nm, num in xobj) + b" >>"
